@@ -19,6 +19,44 @@ from vf.props import c16
 
 PROP = 'C17'
 
+# ---------------------------------------------------------------------------
+# every execution starts from the same world: module-level state of sigtools (containers and plain values) is put back
+# to what it was when the library was imported, so that a schedule determines its execution
+
+import sigtools.modifiers, sigtools.wrappers, sigtools.signatures, sigtools.support  # noqa: E401,E402  (complete the import)
+
+
+def _snapshot_world():
+    snap = []
+    for name, mod in sorted(sys.modules.items()):
+        if mod is None or not (name == 'sigtools' or name.startswith('sigtools.')) or '.tests' in name:
+            continue
+        for attr, val in list(vars(mod).items()):
+            if attr.startswith('__'):
+                continue
+            if type(val) in (dict, list, set):
+                snap.append((mod, attr, val, type(val)(val)))
+            elif type(val) in (int, bool, float):
+                snap.append((mod, attr, None, val))
+    return snap
+
+
+_WORLD = _snapshot_world()
+
+
+def reset_world():
+    for mod, attr, container, saved in _WORLD:
+        if container is None:
+            if vars(mod).get(attr) != saved:
+                setattr(mod, attr, saved)
+        elif type(container) is list:
+            if container != saved:
+                container[:] = saved
+        elif container != saved:
+            container.clear()
+            container.update(saved)
+    guard_reset()
+
 SCENARIO_SRC = '''
 import functools
 from sigtools import specifiers, modifiers, wrappers
@@ -121,6 +159,94 @@ def make_pok2():
     return {'targets': [lambda: a.run, lambda: b.run, lambda: a.run], 'roots': [a, b, K, K.__dict__['run']], 'lazy': True}
 
 
+def chain_end(z, *, flag=False):
+    return z
+
+
+def link01(p01, *args, **kwargs):
+    return link02(*args, **kwargs)
+
+def link02(p02, *args, **kwargs):
+    return link03(*args, **kwargs)
+
+def link03(p03, *args, **kwargs):
+    return link04(*args, **kwargs)
+
+def link04(p04, *args, **kwargs):
+    return link05(*args, **kwargs)
+
+def link05(p05, *args, **kwargs):
+    return link06(*args, **kwargs)
+
+def link06(p06, *args, **kwargs):
+    return link07(*args, **kwargs)
+
+def link07(p07, *args, **kwargs):
+    return link08(*args, **kwargs)
+
+def link08(p08, *args, **kwargs):
+    return link09(*args, **kwargs)
+
+def link09(p09, *args, **kwargs):
+    return link10(*args, **kwargs)
+
+def link10(p10, *args, **kwargs):
+    return link11(*args, **kwargs)
+
+def link11(p11, *args, **kwargs):
+    return link12(*args, **kwargs)
+
+def link12(p12, *args, **kwargs):
+    return link13(*args, **kwargs)
+
+def link13(p13, *args, **kwargs):
+    return link14(*args, **kwargs)
+
+def link14(p14, *args, **kwargs):
+    return link15(*args, **kwargs)
+
+def link15(p15, *args, **kwargs):
+    return link16(*args, **kwargs)
+
+def link16(p16, *args, **kwargs):
+    return link17(*args, **kwargs)
+
+def link17(p17, *args, **kwargs):
+    return link18(*args, **kwargs)
+
+def link18(p18, *args, **kwargs):
+    return link19(*args, **kwargs)
+
+def link19(p19, *args, **kwargs):
+    return link20(*args, **kwargs)
+
+def link20(p20, *args, **kwargs):
+    return chain_end(*args, **kwargs)
+
+
+def make_deepchain():
+    # a forwarding chain of 20 links: each thread follows it to the end
+    return {'targets': [link01, link01, link01], 'roots': [link01, link10, link20, chain_end]}
+
+
+def cf_callee(a, b, *, c=None):
+    return a
+
+
+def make_cachefill():
+    # one thread asks again for a signature that was retrieved before, the other retrieves the signatures of 130
+    # functions nobody has looked at yet (no source available: built by exec)
+    def outer(x, *args, **kwargs):
+        return cf_callee(*args, **kwargs)
+    ns = {}
+    for i in range(130):
+        exec('def g%d(q%d, *args, **kwargs):\\n    return 0\\n' % (i, i), ns)
+    fresh = [ns['g%d' % i] for i in range(130)]
+    from sigtools import specifiers as _sp
+    _sp.signature(outer)
+    return {'targets': [outer, fresh, outer], 'roots': [outer, cf_callee], 'many': [False, True, False]}
+
+
 def deco(func, d, *args, **kwargs):
     return func(*args, **kwargs)
 
@@ -146,7 +272,12 @@ SCENARIOS = {
     'pok': ('sigtools', 'sigtools', 'inspect'),
     'pok2': ('sigtools', 'sigtools', 'inspect'),
     'decorator': ('sigtools', 'inspect', 'sigtools'),
+    'deepchain': ('sigtools', 'sigtools', 'sigtools'),
+    'cachefill': ('sigtools', 'sigtools', 'sigtools'),
 }
+# scenarios with one long-running thread: it is only ever entered by pre-empting the others (start orders that begin
+# with another thread); the orders starting with it are explored by the thorough tier
+LONG_THREAD = {'cachefill': 1}
 FACTORY = {'mixed': 'wraps'}
 RETR = {'sigtools': sigtools.signature, 'inspect': inspect.signature}
 _MOD = {}
@@ -171,13 +302,16 @@ def render(sig):
 
 
 def build(scen, nthreads):
+    reset_world()
     fac = getattr(module(), 'make_' + FACTORY.get(scen, scen))()
     retr = SCENARIOS[scen]
     bodies = []
     for i in range(nthreads):
         tgt = fac['targets'][i]
         fn = RETR[retr[i]]
-        if fac.get('lazy'):
+        if fac.get('many') and fac['many'][i]:
+            bodies.append(lambda tgt=tgt, fn=fn: (tuple(render(fn(g))[0] for g in tgt), ('guard-left', guard_size())))
+        elif fac.get('lazy'):
             bodies.append(lambda tgt=tgt, fn=fn: (render(fn(tgt())), ('guard-left', guard_size())))
         else:
             bodies.append(lambda tgt=tgt, fn=fn: (render(fn(tgt)), ('guard-left', guard_size())))
@@ -331,17 +465,27 @@ def plan(tier):
     runs = []
     if tier == 'quick':
         for scen in SCENARIOS:
-            runs.append((scen, 2, 'critical', 2))
+            # 'decorator' has twice the critical points of any other scenario: its two-pre-emption run is the thorough tier's
+            runs.append((scen, 2, 'critical', 1 if scen == 'decorator' else 2))
             runs.append((scen, 2, 'shared', 1))
         for scen in ('wraps', 'forged2'):
             runs.append((scen, 2, 'all', 1))          # reduction validation
             runs.append((scen, 3, 'critical', 1))
+        runs = [r for r in runs if r[0] not in ('deepchain', 'cachefill')]
+        runs.append(('deepchain', 2, 'critical', 1))
+        runs.append(('cachefill', 2, 'shared', 1))
     else:
         for scen in SCENARIOS:
+            if scen in ('deepchain', 'cachefill'):
+                continue
             runs.append((scen, 2, 'shared', 2))
             runs.append((scen, 2, 'critical', 2))
             runs.append((scen, 2, 'all', 1))
             runs.append((scen, 3, 'critical', 2))
+        # the two long scenarios (thousands of scheduling points per execution): one pre-emption anywhere, two at the
+        # critical points, every start order
+        runs += [('deepchain', 2, 'all', 1), ('deepchain', 2, 'critical', 2), ('deepchain', 3, 'shared', 1),
+                 ('cachefill', 2, 'shared', 1), ('cachefill', 3, 'shared', 1), ('cachefill', 2, 'critical', 2)]
     return runs
 
 
@@ -350,21 +494,26 @@ def shards_for(tier):
     for scen, n, ps, bound in plan(tier):
         s = sched.Scheduler(n, ps)
         for prio in itertools.permutations(range(n)):
+            if tier == 'quick' and LONG_THREAD.get(scen) == prio[0]:
+                continue
             bodies, fac = build(scen, n)
             ex = s.run(bodies, prio, [])
-            npts = len(ex.trace)
-            # a shard owns a range of first-pre-emption indexes; with bound 2 the work below index i is ~ (N - i), so the
-            # ranges shrink towards the front to balance the shards
-            pieces = max(1, min(48, npts // 6)) if bound >= 2 else max(1, min(16, npts // 100))
+            total = len(ex.trace)
+            # with two threads nothing can be pre-empted once the first one has finished: the ranges divide its points
+            npts = ex.finished_at[prio[0]] if n == 2 else total
+            per_exec = total / 1000.0       # longer executions, smaller pieces
+            pieces = max(1, min(48, npts // 6)) if bound >= 2 else max(1, min(32, int(npts * max(1.0, per_exec) // 100)))
             cuts = [0]
             for k in range(1, pieces):
                 frac = k / float(pieces)
                 cut = int(npts * (1 - (1 - frac) ** 0.5)) if bound >= 2 else int(npts * frac)
                 if cut > cuts[-1]:
                     cuts.append(cut)
-            cuts.append(npts)
+            cuts.append(total)
             for lo, hi in zip(cuts, cuts[1:]):
                 out.append((scen, n, ps, bound, prio, lo, hi))
+    # the long executions first: the pool then fills the gaps with the short ones
+    out.sort(key=lambda sh_: 0 if sh_[0] in ('cachefill', 'deepchain') else 1)
     return out
 
 
